@@ -208,4 +208,42 @@ Section SpecFacts.
     destruct (Hp (length (b ++ x :: r) + 2 + d_extra_fuel cfg)%nat (x :: r) ltac:(rewrite app_length; lia)) as (t & Et & _).
     unfold decode. rewrite N.eqb_refl. now rewrite Et.
   Qed.
+
+  (* COMPRESSED (tag 80): UncompressedSize, then a zlib stream that inflates to an encoding of the value (followed,
+     possibly, by bytes the reader ignores).  zlib is the oracle d_inflate: what the stream inflates to and how much of
+     its input it consumed.  The reader returns the term of the inflated encoding and continues after the stream. *)
+  Theorem compressed_sound v payload extra z rest usz f :
+    encodes v payload -> d_inflate cfg (z ++ rest) = Some (payload ++ extra, len z) ->
+    len (payload ++ extra) <= usz -> usz <= max_binary_size -> (length payload + 1 < f)%nat ->
+    exists t, parse cfg f (80 :: be 4 usz ++ z ++ rest) = POk t rest /\ denote t = v.
+  Proof.
+    intros He Hz Hu Hm Hf. destruct f as [|f]; [lia|].
+    destruct (proj1 spec_sound v payload He) as [_ Hp]. destruct (Hp f extra ltac:(lia)) as (t & Et & Dt & _).
+    exists t. split; [|exact Dt]. arm.
+    rewrite rd_app by (unfold max_binary_size in Hm; cbn; lia).
+    replace (max_binary_size <? usz) with false by (symmetry; apply N.ltb_ge; exact Hm).
+    rewrite Hz. replace (usz <? len (payload ++ extra)) with false by (symmetry; apply N.ltb_ge; exact Hu).
+    rewrite Et, takeN_app. reflexivity.
+  Qed.
+
+  (* whole-message form: 131, 80, size, stream *)
+  Corollary decode_compressed v payload extra z usz :
+    encodes v payload -> d_inflate cfg z = Some (payload ++ extra, len z) ->
+    len (payload ++ extra) <= usz -> usz <= max_binary_size -> (length payload <= d_extra_fuel cfg)%nat ->
+    exists t, decode cfg (tag_version :: 80 :: be 4 usz ++ z) = DOk t /\ denote t = v.
+  Proof.
+    intros He Hz Hu Hm Hx.
+    destruct (compressed_sound v payload extra z [] usz (length (80%N :: be 4 usz ++ z) + 2 + d_extra_fuel cfg)%nat He
+                ltac:(rewrite app_nil_r; exact Hz) Hu Hm ltac:(cbn [length]; lia)) as (t & Et & Dt).
+    exists t. split; [|exact Dt]. unfold decode. rewrite N.eqb_refl. rewrite !app_nil_r in Et. now rewrite Et.
+  Qed.
+
+  (* FLOAT_EXT (tag 99), the legacy textual float: 31 bytes of text, NUL padded.  What number a text denotes is the
+     oracle d_float_text (Rust's str::parse::<f64>); the reader takes exactly the 31 bytes, whatever follows. *)
+  Theorem float_text_sound txt b rest f :
+    len txt = 31 -> utf8_valid txt = true -> d_float_text cfg (trim_nul txt) = Some b ->
+    parse cfg (S f) (99 :: txt ++ rest) = POk (TFloat b) rest /\ denote (TFloat b) = VFloat b.
+  Proof.
+    intros Hl Hu Ht. split; [|reflexivity]. arm. rewrite <- Hl, takeN_app, Hu, Ht. reflexivity.
+  Qed.
 End SpecFacts.
